@@ -269,24 +269,34 @@ def resizeOrig (dflt : α) (_ : TRing α) (sz : Nat) : TRing α :=
 /-- `reset()`: `ring_init(&r, buffer.size());` -/
 def reset (t : TRing α) : TRing α := { t with r := ringInit (BitVec.ofNat 32 t.buf.length) }
 
-/-- `push(obj)` / `emplace(args)`: `new (buffer.data() + r.head) T(obj); ring_move_head_one(&r);`
-(no fullness test in the code) -/
+/-- `push(obj)` / `emplace(args)` (repaired: `place->~T();` first):
+`T *place = buffer.data() + r.head; place->~T(); new (place) T(obj); ring_move_head_one(&r);`
+(no fullness test in the code; the VALUE behaviour is that of the pre-repair body) -/
 def push (t : TRing α) (x : α) : Option (TRing α) :=
   match poke t.buf t.r.head.toNat x with
   | none => none
   | some b => some { r := ringMoveHeadOne t.r, buf := b }
 
-/-- `pop()`: `int idx = r.tail; buffer[idx].~T(); ring_move_tail_one(&r);` -/
-def pop (t : TRing α) : Option (TRing α) :=
+/-- pre-repair `pop()`: `int idx = r.tail; buffer[idx].~T(); ring_move_tail_one(&r);`
+(the slot keeps its bytes; no object lives there any more) -/
+def popOrig (t : TRing α) : Option (TRing α) :=
   if t.r.tail.toNat < t.buf.length then some { t with r := ringMoveTailOne t.r } else none
 
+/-- repaired `pop()`: `int idx = r.tail; buffer[idx].~T(); new (buffer.data() + idx) T();
+ring_move_tail_one(&r);` — the released slot holds a value-initialised object
+(`d` = `T()`) again, as every slot does after construction. -/
+def pop (t : TRing α) (d : α) : Option (TRing α) :=
+  if t.r.tail.toNat < t.buf.length then
+    some { r := ringMoveTailOne t.r, buf := t.buf.set t.r.tail.toNat d }
+  else none
+
 /-- `clear()`: `while (!empty()) pop();` -/
-def clear : Nat → TRing α → Option (TRing α)
+def clear (d : α) : Nat → TRing α → Option (TRing α)
   | 0, t => some t
   | fuel + 1, t => if ringEmpty t.r then some t else
-      match pop t with
+      match pop t d with
       | none => none
-      | some t' => clear fuel t'
+      | some t' => clear d fuel t'
 
 /-- `T &get(int index) { return buffer[index]; }` -/
 def get (t : TRing α) (index : Nat) : Option α := t.buf[index]?
@@ -567,7 +577,9 @@ def slotAddr (base elem i : Nat) : Nat := base + i * elem
 elements, converted to `int`) -/
 def indexOf (base elem p : Nat) : Int := (((p - base) / elem : Nat) : Int)
 
-/-! ## Slot lifetime of igris::ring<T> over unbounded_array<T>, as the code is
+/-! ## Slot lifetime of igris::ring<T> over unbounded_array<T>, as the code WAS
+before the two lifetime repairs (`pushOrig`/`popOrig`/`clearOrig`; kept for the
+witness theorems; `VRing` below is the code as it is now)
 
 Every slot of the `unbounded_array` holds bytes (`t.buf`, they persist whatever
 happens to the object) and either a living `T` object or none (`live`).  The
@@ -593,8 +605,8 @@ def mk' (dflt : α) (bufsize : Nat) : LRing α :=
   { t := TRing.mk' dflt bufsize, live := List.replicate (bufsize + 1) true,
     overLive := 0, deadDtor := 0, deadRead := 0 }
 
-/-- `push` / `emplace`: `new (buffer.data() + r.head) T(obj); ring_move_head_one(&r);` -/
-def push (l : LRing α) (x : α) : Option (LRing α) :=
+/-- pre-repair `push` / `emplace`: `new (buffer.data() + r.head) T(obj); ring_move_head_one(&r);` -/
+def pushOrig (l : LRing α) (x : α) : Option (LRing α) :=
   match l.t.push x with
   | none => none
   | some t' =>
@@ -602,9 +614,9 @@ def push (l : LRing α) (x : α) : Option (LRing α) :=
     some { l with t := t', live := l.live.set h true,
                   overLive := l.overLive + (if l.live.getD h false then 1 else 0) }
 
-/-- `pop`: `buffer[r.tail].~T(); ring_move_tail_one(&r);` -/
-def pop (l : LRing α) : Option (LRing α) :=
-  match l.t.pop with
+/-- pre-repair `pop`: `buffer[r.tail].~T(); ring_move_tail_one(&r);` -/
+def popOrig (l : LRing α) : Option (LRing α) :=
+  match l.t.popOrig with
   | none => none
   | some t' =>
     let i := l.t.r.tail.toNat
@@ -612,12 +624,12 @@ def pop (l : LRing α) : Option (LRing α) :=
                   deadDtor := l.deadDtor + (if l.live.getD i false then 0 else 1) }
 
 /-- `clear()`: `while (!empty()) pop();` -/
-def clear : Nat → LRing α → Option (LRing α)
+def clearOrig : Nat → LRing α → Option (LRing α)
   | 0, l => some l
   | fuel + 1, l => if ringEmpty l.t.r then some l else
-      match pop l with
+      match popOrig l with
       | none => none
-      | some l' => clear fuel l'
+      | some l' => clearOrig fuel l'
 
 /-- `~ring()` = `~unbounded_array()` = `invalidate()`: `~T()` on EVERY slot -/
 def destroy (l : LRing α) : LRing α :=
@@ -685,5 +697,166 @@ def rcFixupPosC (rc : RingCounter) (pos : Int) : Option Int :=
 /-- `ring_counter_last(rc, no)`: `ring_counter_fixup_pos(rc, rc->counter - no)` -/
 def rcLastC (rc : RingCounter) (no : Int) : Option Int :=
   (ckInt (rc.counter - no)).bind (rcFixupPosC rc)
+
+/-! ## Slot lifetime of igris::ring<T> over unbounded_array<T>, as the code IS
+(after the repairs 5bfd4f6 `pop` and fcfbb44 `push`/`emplace`)
+
+Every constructor call and every destructor call on a slot of the ring's array
+is an event: `ctor` / `dtor` count them, `live` says which slots hold a living
+object, `overLive` / `deadDtor` / `deadRead` count the events that must not
+happen (construction over a living object, destruction of / copy from a slot
+without one). -/
+structure VRing (α : Type) where
+  t : TRing α
+  live : List Bool
+  ctor : Nat
+  dtor : Nat
+  overLive : Nat
+  deadDtor : Nat
+  deadRead : Nat
+
+namespace VRing
+variable {α : Type}
+
+/-- `new (buffer.data() + i) T(…)` -/
+def construct (v : VRing α) (i : Nat) : VRing α :=
+  { v with live := v.live.set i true, ctor := v.ctor + 1,
+           overLive := v.overLive + (if v.live.getD i false then 1 else 0) }
+
+/-- `buffer[i].~T()` -/
+def destruct (v : VRing α) (i : Nat) : VRing α :=
+  { v with live := v.live.set i false, dtor := v.dtor + 1,
+           deadDtor := v.deadDtor + (if v.live.getD i false then 0 else 1) }
+
+/-- `ring(int bufsize)`: `unbounded_array(bufsize + 1)` constructs every element -/
+def mk' (dflt : α) (bufsize : Nat) : VRing α :=
+  { t := TRing.mk' dflt bufsize, live := List.replicate (bufsize + 1) true,
+    ctor := bufsize + 1, dtor := 0, overLive := 0, deadDtor := 0, deadRead := 0 }
+
+/-- `push` / `emplace`: `place->~T(); new (place) T(obj); ring_move_head_one(&r);` -/
+def push (v : VRing α) (x : α) : Option (VRing α) :=
+  match v.t.push x with
+  | none => none
+  | some t' =>
+    let h := v.t.r.head.toNat
+    some { (v.destruct h).construct h with t := t' }
+
+/-- `push(obj)` with `obj` being the head slot itself (`place == &obj`, e.g.
+`r.push(r.head_place())`): nothing is destroyed or constructed, the head moves on -/
+def pushSelf (v : VRing α) : VRing α := { v with t := { v.t with r := ringMoveHeadOne v.t.r } }
+
+/-- `pop`: `buffer[idx].~T(); new (buffer.data() + idx) T(); ring_move_tail_one(&r);` -/
+def pop (v : VRing α) (d : α) : Option (VRing α) :=
+  match v.t.pop d with
+  | none => none
+  | some t' =>
+    let i := v.t.r.tail.toNat
+    some { (v.destruct i).construct i with t := t' }
+
+/-- `clear()`: `while (!empty()) pop();` -/
+def clear (d : α) : Nat → VRing α → Option (VRing α)
+  | 0, v => some v
+  | fuel + 1, v => if ringEmpty v.t.r then some v else
+      match pop v d with
+      | none => none
+      | some v' => clear d fuel v'
+
+/-- `unbounded_array::invalidate()`: `~T()` on EVERY slot, storage released -/
+def invalidate (v : VRing α) : VRing α :=
+  { v with dtor := v.dtor + v.live.length, deadDtor := v.deadDtor + LRing.deadCount v.live,
+           live := v.live.map fun _ => false }
+
+/-- `~ring()` = `~unbounded_array()` = `invalidate()` -/
+def destroy (v : VRing α) : VRing α := v.invalidate
+
+/-- `resize(sz)`: `buffer.resize(sz + 1)` = `invalidate(); create_buffer(sz + 1)`, `ring_init` -/
+def resize (dflt : α) (v : VRing α) (sz : Nat) : VRing α :=
+  let w := v.invalidate
+  { w with t := TRing.resize dflt v.t sz, live := List.replicate (sz + 1) true, ctor := w.ctor + (sz + 1) }
+
+/-- copy construction from `v`, then `v` itself is destroyed: the new array
+value-constructs `size` elements, `std::copy` reads every slot of the source -/
+def copyAndDrop (dflt : α) (v : VRing α) : VRing α :=
+  let w := v.invalidate
+  { w with t := TRing.copy dflt v.t, live := List.replicate v.t.buf.length true,
+           ctor := w.ctor + v.t.buf.length, deadRead := v.deadRead + LRing.deadCount v.live }
+
+/-- move construction from `v` (the moved-from object owns nothing and destroys nothing) -/
+def moveAndDrop (v : VRing α) : VRing α := { v with t := (TRing.move v.t).1 }
+
+/-- copy ASSIGNMENT of `v` to a freshly constructed `ring<T>(m)`, then `v` itself is
+destroyed: `unbounded_array::operator=` destroys the `m + 1` elements of the target,
+allocates `size` elements and copy-constructs each from the source slot -/
+def assignAndDrop (dflt : α) (v : VRing α) (m : Nat) : VRing α :=
+  let w := v.invalidate
+  { w with t := TRing.assign (TRing.mk' dflt m) v.t, live := List.replicate v.t.buf.length true,
+           ctor := w.ctor + (m + 1) + v.t.buf.length, dtor := w.dtor + (m + 1),
+           deadRead := v.deadRead + LRing.deadCount v.live }
+
+end VRing
+
+/-- scripts over one `igris::ring<T>` object and its successors by copy / move -/
+inductive VOp (α : Type) where
+  | push (x : α)
+  | pushSelf
+  | pop
+  | clear
+  | resize (sz : Nat)
+  | copy
+  | move
+  | assign (m : Nat)
+
+def VRing.step {α : Type} (dflt : α) (v : VRing α) : VOp α → Option (VRing α)
+  | .push x => v.push x
+  | .pushSelf => some v.pushSelf
+  | .pop => v.pop dflt
+  | .clear => VRing.clear dflt (v.t.r.size.toNat + 1) v
+  | .resize sz => some (v.resize dflt sz)
+  | .copy => some (v.copyAndDrop dflt)
+  | .move => some v.moveAndDrop
+  | .assign m => some (v.assignAndDrop dflt m)
+
+def VRing.run {α : Type} (dflt : α) : VRing α → List (VOp α) → Option (VRing α)
+  | v, [] => some v
+  | v, op :: ops => (VRing.step dflt v op).bind fun v' => VRing.run dflt v' ops
+
+/-! ## The C widths of the constructors (round 3)
+
+The list-level models `TRing.mk'`, `TRing.resize`, `Cyclic.mk'` take a `Nat`;
+the C++ constructors take `int` / `size_t` and convert.  These are the
+conversions, on the header fields only (the arrays can have 2^32 and more
+elements: only their element count is modelled). -/
+
+/-- `ring(int bufsize) : buffer(bufsize + 1) { ring_init(&r, bufsize + 1); }`:
+`bufsize + 1` is an `int` addition (`none` = signed overflow at INT_MAX), converted
+to `size_t` for the array (sign extension) and to `unsigned` for `ring_init`.
+Result: the ring head and the element count requested from the allocator. -/
+def ringCtorC (bufsize : BitVec 32) : Option (RingHead × Nat) :=
+  if bufsize.toInt = 2147483647 then none
+  else
+    let n : Int := bufsize.toInt + 1
+    some (ringInit (BitVec.ofInt 32 n), (BitVec.ofInt 64 n).toNat)
+
+/-- `resize(size_t sz)`: `buffer.resize(sz + 1); ring_init(&r, sz + 1);` — `sz + 1` in
+`size_t` (wraps at 2^64), truncated to `unsigned` for `ring_init`. -/
+def ringResizeC (sz : BitVec 64) : RingHead × Nat :=
+  (ringInit ((sz + 1).setWidth 32), (sz + 1).toNat)
+
+/-- `cyclic_buffer(size_t size) : data(size) { ring_counter_init(&counter, size); }`:
+`size_t → int` for the counter.  Result: the counter and the element count. -/
+def cyclicCtorC (size : BitVec 64) : RingCounter × Nat :=
+  (rcInit (size.setWidth 32).toInt, size.toNat)
+
+/-- `ring_fixup_head` / `ring_fixup_tail` with non-termination visible:
+`none` = the loop is still running after `fuel` iterations. -/
+def fixupLoopT (size : U32) : Nat → U32 → Option U32
+  | 0, x => if x ≥ size then none else some x
+  | fuel + 1, x => if x ≥ size then fixupLoopT size fuel (x - size) else some x
+
+/-- `size_t write(const T *buf, size_t sz) { return ring_write(&r, buffer.data(), buf, sz); }`
+(and `read` alike): `sz` is converted to the `unsigned int size` parameter of
+`ring_write` — only `sz mod 2^32` elements are offered to the ring. -/
+def TRing.writeC {α : Type} (t : TRing α) (d : List α) : Option (TRing α × Nat) :=
+  (ringWrite t.r t.buf (d.take (d.length % 2 ^ 32))).map fun (r', b', k) => (⟨r', b'⟩, k)
 
 end Igris.C03
